@@ -270,10 +270,30 @@ def r16_4(chk):
     chk.floor("R16.4", 3, "three obligations")
 
 
-def _primary_keys(expr, param, module, depth=2):
+def _const_values(fn, name):
+    """constant strings a local name can hold (assigned constants / conditional expressions of constants), or None"""
+    if fn is None:
+        return None
+    out = set()
+    for st in walk_no_nested(fn):
+        if isinstance(st, ast.Assign) and any(isinstance(t, ast.Name) and t.id == name for t in st.targets):
+            vals = [st.value.body, st.value.orelse] if isinstance(st.value, ast.IfExp) else [st.value]
+            for v in vals:
+                if isinstance(v, ast.Constant) and isinstance(v.value, str):
+                    out.add(v.value)
+                else:
+                    return None
+    return out or None
+
+
+def _primary_keys(expr, param, module, depth=2, fn=None):
     """keys of the rule dict `param` that the expression can take its value from first"""
     if isinstance(expr, ast.Call) and isinstance(expr.func, ast.Attribute) and expr.func.attr == "get" and norm(expr.func.value) == param and expr.args and isinstance(expr.args[0], ast.Constant):
         return {expr.args[0].value}
+    if isinstance(expr, ast.Call) and isinstance(expr.func, ast.Attribute) and expr.func.attr == "get" and norm(expr.func.value) == param and expr.args and isinstance(expr.args[0], ast.Name):
+        return _const_values(fn, expr.args[0].id)
+    if isinstance(expr, ast.Subscript) and norm(expr.value) == param and isinstance(expr.slice, ast.Name):
+        return _const_values(fn, expr.slice.id)
     if isinstance(expr, ast.Subscript) and norm(expr.value) == param and isinstance(expr.slice, ast.Constant):
         return {expr.slice.value}
     if isinstance(expr, ast.IfExp):
@@ -313,7 +333,7 @@ def r16_5(chk):
         if not reads:
             raise AnalysisError(f"{q}: assignment of the copied value not found")
         for st in reads:
-            keys = _primary_keys(st.value, "null", m)
+            keys = _primary_keys(st.value, "null", m, fn=fn)
             k = key(m, q, "value taken from the projected key")
             if keys is None:
                 chk.unresolved("R16.5", k, m.loc(st), f"cannot tell which key `{norm(st.value)}` reads")
